@@ -63,10 +63,10 @@ def run_batch(exe, scripts, limit=2.0):
         if not chunk:
             return ''
         inp = ''.join('%s\t%s\t%s\t%s\n' % (i, a, p or '-', ','.join(ev)) for i, a, p, ev in chunk)
-        p = subprocess.run([exe, '--limit', str(limit)], input=inp, stdout=subprocess.PIPE, stderr=subprocess.PIPE, text=True, env=env)
+        p = subprocess.run([exe, '--limit', str(limit)], input=inp.encode(), stdout=subprocess.PIPE, stderr=subprocess.PIPE, env=env)
         if p.returncode != 0:
-            core.die_infra('batch harness died: rc=%s %s' % (p.returncode, p.stderr[-500:]))
-        return p.stdout
+            core.die_infra('batch harness died: rc=%s %s' % (p.returncode, p.stderr[-500:].decode('latin-1')))
+        return p.stdout.decode('latin-1')
     out = {}
     with cf.ThreadPoolExecutor(n) as ex:
         for o in ex.map(one, chunks):
